@@ -15,8 +15,9 @@
 EXTENDS Num, Sequences, FiniteSets, TLC, Json, IOUtils
 CONSTANTS Mode, MaxDepth
 
-Bases == {"Sphere", "BuecheRastrigin", "Branin"}
-Wrappers == {"ShiftPos", "ShiftNeg", "SignFlip", "Noisy", "Discretize", "Permute", "Normalize", "HashInfeasible"}
+\* SphereBox: the sphere on the box [2,3] x [-0.5,0.5] (ranges of length exactly 1 that do not start at 0)
+Bases == {"Sphere", "BuecheRastrigin", "Branin", "SphereBox"}
+Wrappers == {"ShiftPos", "ShiftNeg", "SignFlip", "Noisy", "Discretize", "Permute", "Normalize", "HashInfeasible", "HyperCube"}
 \* the parameter kind a term exposes: continuous until discretised
 Kind(t) == IF \E i \in DOMAIN t.ws : t.ws[i] = "Discretize" THEN "discrete" ELSE "continuous"
 RECURSIVE ValidFrom(_, _, _)
@@ -26,12 +27,16 @@ ValidFrom(ws, i, kind) ==
        /\ (w \in {"ShiftPos", "ShiftNeg", "Discretize"} => kind = "continuous")
        /\ (w = "Permute" => kind = "discrete")
        /\ (w = "Normalize" => kind = "continuous")
+       /\ (w = "HyperCube" => kind = "continuous")
        /\ ValidFrom(ws, i + 1, IF w = "Discretize" THEN "discrete" ELSE kind)
 \* ws[1] is the innermost wrapper
 RECURSIVE SeqsUpTo(_, _)
 SeqsUpTo(S, n) == IF n = 0 THEN {<<>>} ELSE SeqsUpTo(S, n - 1) \cup {Append(q, x) : q \in SeqsUpTo(S, n - 1), x \in S}
 \* a multi-objective base (two objectives evaluated by two experimenters) is used unwrapped: the wrappers are single-objective
-Terms == {[base |-> b, ws |-> ws] : b \in Bases, ws \in {q \in SeqsUpTo(Wrappers, MaxDepth) : ValidFrom(q, 1, "continuous")}}
+\* the fixed shifts (up to 2.0) do not fit into the unit-length box: the shifting wrapper refuses them by design
+\* (nor into the unit cube a HyperCube wrapper exposes)
+Fits(b, ws) == \A i \in DOMAIN ws : ws[i] \in {"ShiftPos", "ShiftNeg"} => (b # "SphereBox" /\ \A j \in 1..(i - 1) : ws[j] # "HyperCube")
+Terms == {t \in {[base |-> b, ws |-> ws] : b \in Bases, ws \in {q \in SeqsUpTo(Wrappers, MaxDepth) : ValidFrom(q, 1, "continuous")}} : Fits(t.base, t.ws)}
          \cup {[base |-> "MultiObjective", ws |-> <<>>]}
 
 VARIABLE term
